@@ -245,8 +245,8 @@ func runC14(c *engine.Ctx) {
 				}
 				return "the ping loop is started without a positive HeartbeatInterval (a zero period is a tight loop)"
 			}}, "ping loop period = HeartbeatInterval > 0")
-			if mc, ok := args[0].(*ssa.MakeClosure); ok {
-				if cl, ok := mc.Fn.(*ssa.Function); ok {
+			{
+				if cl := funcValueOf(c.P, args[0]); cl != nil && cl.Blocks != nil { // closure literal or method value
 					n++
 					setPing := method(c, "pkg/auth", "Setter", "SetPing")
 					send := method(c, "pkg/msg", "Dispatcher", "Send")
